@@ -160,6 +160,11 @@ def run_check(check, tier, seed, replay=None, max_cases=None):
     ncases = check.quick_cases if tier == "quick" else check.thorough_cases
     if max_cases:
         ncases = max_cases
+    # VERIF_BUDGET_SCALE=k: soundness stress runs on the clean tree (k times the wall-clock budget and case count), so
+    # that a run on a faster or quieter machine cannot reach cases that were never explored before registration
+    scale = float(os.environ.get("VERIF_BUDGET_SCALE", "1"))
+    if scale != 1:
+        budget, ncases = budget * scale, int(ncases * scale)
     log = lambda *a: print(*a, flush=True)  # noqa: E731
 
     # 1. translator ------------------------------------------------------------------
